@@ -54,6 +54,7 @@ def checkServe (c : Case) : VM Unit := do
       vfail "C18" "large-request-answer-differs" s!"bytes={(get "bytes").headD "?"}"
     else vstat "serve.big-answered" 1
   | _ => pure ()
+  if (get "final").headD "0" == "1" then vstat "serve.abandoned-requests" (nat! ((get "abandoned").headD "0"))
   vstat s!"serve.kind-{kind}" 1
   vstat "serve.requests" 1
 
